@@ -29,7 +29,8 @@ class Lemmas(Family):
     configs = ["int64"]
 
     def kinds(self):
-        return ["PS-monotone", "PS-nonneg", "PS-const-on-zeros", "adjacent-sorted=>sorted", "strictly-increasing-selfmap-is-identity"]
+        return ["PS-monotone", "PS-nonneg", "PS-const-on-zeros", "adjacent-sorted=>sorted", "strictly-increasing-selfmap-is-identity",
+                "same-lengths=>same-starts"]
 
     def run(self, ctx, kind):
         getattr(self, "lemma_" + kind.replace("-", "_").replace("=>", "_implies_"))(ctx)
@@ -73,6 +74,17 @@ class Lemmas(Family):
         ctx.prove("base", A(a) <= A(a + 0))
         ctx.assume(z3.And(d >= 0, 0 <= a, a + d + 1 < n, A(a) <= A(a + d)))
         ctx.prove("step", A(a) <= A(a + d + 1))
+
+    def lemma_same_lengths_implies_same_starts(self, ctx):
+        n, S, L = ps_axioms(ctx, "a")
+        S2 = z3.Function("S_b", z3.IntSort(), z3.IntSort())
+        ctx.assume(S2(0) == 0)
+        ctx.assume_forall("S2.step", lambda r: z3.Implies(z3.And(0 <= r, r < n), S2(r + 1) == S2(r) + L(r)))
+        k = z3.Int("k")
+        ctx.add_index(k, k + 1, z3.IntVal(0))
+        ctx.prove("base", S(0) == S2(0))
+        ctx.assume(z3.And(0 <= k, k < n, S(k) == S2(k)))
+        ctx.prove("step", S(k + 1) == S2(k + 1))
 
     def lemma_strictly_increasing_selfmap_is_identity(self, ctx):
         """f: [0,m) -> [0,m) strictly increasing  =>  f(i) >= i  (and hence f = id together with f(i) <= m-1-(m-1-i))."""
